@@ -88,6 +88,9 @@ pub fn cov_map(out: &RunOutput) -> Vec<(&'static str, u64)> {
         ("idle_rounds_with_pending_writes", c.idle_rounds_with_writes),
         ("c01_from_scratch_comparisons", c.c01_value_checks),
         ("c01_skipped_non_equality_cutoff", c.c01_skipped_noneq_cutoff),
+        ("memo_calls", c.memo_calls),
+        ("memo_hits_on_live_node", c.memo_hits),
+        ("memo_recreated_after_drop", c.memo_recreated),
     ]
 }
 
